@@ -305,6 +305,29 @@ theorem storeAll_eq_map (z : β) (n w : Nat) (stores : List (Nat × Src)) (p : L
   rw [← hp]
   exact eq_map_range_getD p z
 
+theorem length_writeAt (x : List β) (off : Nat) (v : List β) (h : off + v.length ≤ x.length) :
+    (writeAt x off v).length = x.length := by
+  simp only [writeAt, List.length_append, List.length_take, List.length_drop]
+  omega
+
+theorem getElem?_writeAt (x : List β) (off : Nat) (v : List β) (h : off + v.length ≤ x.length)
+    (i : Nat) :
+    (writeAt x off v)[i]? =
+      if i < off then x[i]? else if i < off + v.length then v[i - off]? else x[i]? := by
+  unfold writeAt
+  have h1 : (x.take off).length = off := by simp only [List.length_take]; omega
+  by_cases hi : i < off
+  · rw [List.append_assoc, List.getElem?_append_left (by omega)]
+    simp [hi, List.getElem?_take]
+  · by_cases hi2 : i < off + v.length
+    · rw [List.getElem?_append_left (by simp only [List.length_append, h1]; omega),
+        List.getElem?_append_right (by omega)]
+      simp [hi, hi2, h1]
+    · rw [List.getElem?_append_right (by simp only [List.length_append, h1]; omega)]
+      simp only [hi, hi2, if_false, List.length_append, h1, List.getElem?_drop]
+      congr 1
+      omega
+
 end Stores
 
 end Maximum
